@@ -6,6 +6,7 @@ toolchain go1.25.0
 
 require (
 	github.com/coder/websocket v1.8.12
+	golang.org/x/image v0.20.0
 	oss.terrastruct.com/d2 v0.0.0
 	oss.terrastruct.com/util-go v0.0.0-20250213174338-243d8661088a
 	pgregory.net/rapid v1.3.0
@@ -42,7 +43,6 @@ require (
 	github.com/yuin/goldmark v1.7.4 // indirect
 	go.uber.org/multierr v1.11.0 // indirect
 	golang.org/x/exp v0.0.0-20240909161429-701f63a606c0 // indirect
-	golang.org/x/image v0.20.0 // indirect
 	golang.org/x/net v0.35.0 // indirect
 	golang.org/x/sync v0.11.0 // indirect
 	golang.org/x/sys v0.30.0 // indirect
